@@ -64,6 +64,15 @@ INT_BITS = {"u8": 8, "u16": 16, "u32": 32, "u64": 64, "u128": 128, "usize": 64,
             "i8": 8, "i16": 16, "i32": 32, "i64": 64, "i128": 128, "isize": 64}
 
 
+def F32(v):
+    """round to single precision"""
+    import struct
+    try:
+        return struct.unpack("f", struct.pack("f", float(v)))[0]
+    except OverflowError:
+        return float("inf") if v > 0 else float("-inf")
+
+
 class Ref:
     """A mutable reference into a modelled container (`v.last_mut()`, `&mut v[i]`)."""
 
@@ -202,6 +211,11 @@ class Interp:
                 return v.get()
             return v
         if k == "Lit":
+            if e.get("t") == "float" and isinstance(e.get("v"), str):
+                try:
+                    return float(e["v"].replace("_", "").rstrip("f32").rstrip("f64") if e["v"][-3:] in ("f32", "f64") else e["v"].replace("_", ""))
+                except ValueError:
+                    raise Unknown("float literal " + e["v"])
             return e.get("v")
         if k == "Var":
             if e["id"] in env:
@@ -298,8 +312,24 @@ class Interp:
             t = e.get("ty", "")
             if isinstance(v, bool) and t in INT_BITS:
                 return int(v)
+            if isinstance(v, bool) and t in ("f32", "f64"):
+                return float(v)
             if isinstance(v, int) and t in INT_BITS:
+                bits = INT_BITS[t]
+                v &= (1 << bits) - 1                      # `as` between integers wraps (two's complement)
+                if t.startswith("i") and v >= (1 << (bits - 1)):
+                    v -= (1 << bits)
                 return v
+            if isinstance(v, int) and t in ("f32", "f64"):
+                return F32(v) if t == "f32" else float(v)
+            if isinstance(v, float) and t in INT_BITS:
+                bits = INT_BITS[t]
+                lo, hi = (-(1 << (bits - 1)), (1 << (bits - 1)) - 1) if t.startswith("i") else (0, (1 << bits) - 1)
+                if v != v:
+                    return 0
+                return max(lo, min(hi, int(v)))           # float -> int saturates
+            if isinstance(v, float) and t == "f32":
+                return F32(v)
             return v
         if k == "Assign":
             val = self.ev(e["r"], env, depth)
